@@ -142,6 +142,14 @@ func genLeaf(t *rapid.T, o GenOptions, label string, inPtrGroup bool) *FieldSpec
 				}
 			}
 			d := rapid.SampledFrom(ds).Draw(t, label+".default")
+			// the empty-string default is one spelling among many string defaults: give it a quarter of the draws
+			if k.Family == FString && rapid.IntRange(0, 3).Draw(t, label+".emptydefault") == 0 {
+				for _, e := range ds {
+					if e.Tag == "''" {
+						d = e
+					}
+				}
+			}
 			f.Default = &d
 		}
 	case 2:
@@ -207,7 +215,7 @@ func genMigrationTags(t *rapid.T, o GenOptions, f *FieldSpec, label string, inPt
 	if k.Family == FString && rapid.IntRange(0, 2).Draw(t, label+".hassize") == 0 {
 		f.Size = rapid.SampledFrom([]int{16, 100, 255, 1024}).Draw(t, label+".size")
 	}
-	if !inPtrGroup && rapid.IntRange(0, 5).Draw(t, label+".nn") == 0 && (f.Default == nil || f.Default.Tag != "null") {
+	if !inPtrGroup && rapid.IntRange(0, 5).Draw(t, label+".nn") == 0 && (f.Default == nil || !strings.EqualFold(f.Default.Tag, "null")) {
 		// SQLite adds a NOT NULL column to an existing table only with a non-NULL constant default
 		if !o.Addition || (f.Default != nil && !f.Default.DB) {
 			f.NotNull = true
@@ -375,6 +383,7 @@ const (
 	KeyAuto     KeyFill = "auto"     // every record leaves the auto-increment key zero
 	KeySupplied KeyFill = "supplied" // every record carries a caller-chosen key
 	KeyMixed    KeyFill = "mixed"    // some do (only meaningful with RETURNING)
+	KeyLeading  KeyFill = "leading"  // the first k records carry ascending caller-chosen keys, the rest leave it zero
 )
 
 // Records is a batch of generated records of one model.
@@ -407,6 +416,13 @@ func GenRecords(t *rapid.T, m *Model, n int, fill KeyFill, ordinal int) *Records
 					keepGroup[fmt.Sprint(l.Path[:h+1])] = true
 				}
 			}
+		}
+	}
+	leading := 0
+	if fill == KeyLeading && auto != nil {
+		leading = n
+		if n >= 2 {
+			leading = rapid.IntRange(1, n-1).Draw(t, "leadingkeys")
 		}
 	}
 	for i := 0; i < n; i++ {
@@ -445,7 +461,7 @@ func GenRecords(t *rapid.T, m *Model, n int, fill KeyFill, ordinal int) *Records
 			case l.Spec.Marker:
 				v = reflect.ValueOf(int64(1000 + ord))
 			case l == auto:
-				supplied := fill == KeySupplied || (fill == KeyMixed && rapid.Bool().Draw(t, label+".supplied"))
+				supplied := fill == KeySupplied || (fill == KeyMixed && rapid.Bool().Draw(t, label+".supplied")) || (fill == KeyLeading && i < leading)
 				if !supplied {
 					continue
 				}
